@@ -180,6 +180,9 @@ def cond_z3(c):
 
 
 # ---------------------------------------------------------------------------
+PARAM_COVER = {}      # qualname -> {optional parameter: given explicitly in some symbolic call}
+
+
 class Poison(object):
     """value of a variable that is loop-carried in a generically executed loop"""
     def __init__(self, name):
@@ -1619,6 +1622,12 @@ class Interp(object):
             fr.l[a.kwarg.arg] = extra
         defaults = f.defaults or []
         nd = len(defaults)
+        # parameter coverage: which optional parameters were ever given explicitly (reported in the evidence)
+        if f.module.kind == 'py' and nd:
+            cov = PARAM_COVER.setdefault(f.qualname, {})
+            for idx, n in enumerate(names):
+                if idx - (len(names) - nd) >= 0:
+                    cov[n] = cov.get(n, False) or (n in fr.l)
         for idx, n in enumerate(names):
             if n not in fr.l:
                 di = idx - (len(names) - nd)
